@@ -229,6 +229,25 @@ class WriterActor(Actor):
 # Foreign / raw producers (stubs driven by the reference serializer)
 # --------------------------------------------------------------------------
 
+def render_blocks(b):
+    """A well-formed file with one very large diff made of fixed-length
+    lines (a dump): {'line': bytes per line incl. newline, 'count': lines,
+    'tail': extra bytes in a last line, 'crlf': bool}; sections before and
+    after it."""
+    n = max(2, int(b.get('line', 64)))
+    nl = b'\r\n' if b.get('crlf') else b'\n'
+    line = b'x' * max(0, n - len(nl)) + nl
+    body = line * max(1, min(int(b.get('count', 1)), 20000))
+
+    if b.get('tail'):
+        body += b'y' * int(b['tail']) + nl
+
+    meta = b'#...meta: format=json, length=9\n{"k": 1}\n'
+    return (b'#diffx: encoding=utf-8, version=1.0\n#.change:\n#..file:\n' +
+            meta + (b'#...diff: length=%d\n' % len(body)) + body +
+            b'#..file:\n' + meta)
+
+
 class RawProducer(Actor):
     """Stores pre-rendered bytes, one chunk per step (so a consumer can
     overtake it at chunk boundaries).  Spec: either "foreign": {...} (see
@@ -247,6 +266,8 @@ class RawProducer(Actor):
 
         if 'foreign' in s:
             data = R.render_foreign(s['foreign'])
+        elif 'blocks' in s:
+            data = render_blocks(s['blocks'])
         elif 'chunks_hex' in s:
             return [bytes.fromhex(c) for c in s['chunks_hex']]
         else:
@@ -306,6 +327,7 @@ def sized_reader_cls(L, bs):
 
     if cls is None:
         base = L.DiffXReader
+        sig = inspect.signature(base._read_until)
 
         class SizedReader(base):
             _verif_block = bs
@@ -314,8 +336,7 @@ def sized_reader_cls(L, bs):
                 # only the block size is overridden; every other argument
                 # the library passes goes through unchanged
                 try:
-                    ba = inspect.signature(base._read_until).bind(
-                        self, *args, **kwargs)
+                    ba = sig.bind(self, *args, **kwargs)
                     ba.arguments['chunk_size'] = self._verif_block
                 except TypeError:
                     return base._read_until(self, *args, **kwargs)
@@ -641,9 +662,14 @@ class DomLoadActor(Actor):
                 self.tree = L.DiffX.from_bytes(self.data)
             else:
                 rea = sea = None
+                nsk = False
 
                 for x in world.scn.get('faults', ()):
-                    if x['kind'] == 'read_error' and \
+                    if x['kind'] == 'nonseekable' and \
+                       x.get('reader', self.id) == self.id:
+                        nsk = True
+                        world.faults['nonseekable_stream'] += 1
+                    elif x['kind'] == 'read_error' and \
                        x.get('reader', self.id) == self.id:
                         rea = int(x['call'])
                     elif x['kind'] == 'seek_error' and \
@@ -652,7 +678,8 @@ class DomLoadActor(Actor):
 
                 self.handle = SimReadHandle(world, self.data, self.id,
                                             read_error_at=rea,
-                                            seek_error_at=sea)
+                                            seek_error_at=sea,
+                                            nonseekable=nsk)
                 self.tree = L.DiffX.from_stream(self.handle)
 
             self.end = 'ok'
